@@ -511,4 +511,243 @@ theorem waits_dropVec (c : Cfg) (tk : List End) (w : Nat → Bool) (k : Nat) :
       List.append_nil, List.filter_cons, List.filter_nil]
 
 
+
+
+/-- all commands can be started -/
+def AllStart (c : Cfg) : Prop := c.failAt = none ∨ ∃ k, c.failAt = some k ∧ c.n ≤ k
+
+theorem startAll_ok (c : Cfg) (a2 : Att) (h : AllStart c) :
+    startAll c a2 = ((List.range c.n).flatMap (stageOk c a2), true, c.n) := by
+  rcases h with h | ⟨k, h, hk⟩
+  · simp [startAll, h]
+  · have : ¬ k < c.n := by omega
+    simp [startAll, h, this]
+
+/-- what follows the spawn loop, per terminator -/
+def tail (c : Cfg) (t : Term) : List Act :=
+  let last := c.n - 1
+  match t with
+  | .popen => [.ret true, .user] ++ dropVec c [] noneWaited c.n
+  | .join => [.waitRet last] ++ dropVec c [] (fun j => j = last) c.n ++ [.ret true]
+  | .streamStdout => [.ret true, .user, .close ⟨2 + last, .r⟩] ++ dropVec c [⟨2 + last, .r⟩] noneWaited c.n
+  | .streamStderr => [.ret true, .user] ++ dropVec c [] noneWaited c.n
+  | .streamStdin => [.ret true, .user, .close ⟨1, .w⟩] ++ dropVec c [⟨1, .w⟩] noneWaited c.n
+  | .capture =>
+    [.io] ++ (commWriteEnds c).map Act.close ++ [.waitRet last] ++
+      dropVec c (commEnds c t) (fun j => j = last) c.n ++ (commReadEnds c t).map Act.close ++ [.ret true]
+  | .communicate =>
+    dropVec c (commEnds c t) noneWaited c.n ++ [.ret true, .user] ++ (commEnds c t).map Act.close
+
+theorem runEff_ok (c : Cfg) (t : Term) (h : AllStart c) :
+    runEff c t = (if capPipe c t then [Act.mk 0 true true] else []) ++
+      (List.range c.n).flatMap (stageOk c (att2 c t)) ++
+      (if capPipe c t then [Act.close ⟨0, .w⟩] else []) ++ tail c t := by
+  simp only [runEff, startAll_ok c _ h, tail]
+  cases t <;> simp
+
+theorem effective_allStart (c : Cfg) (t : Term) (h : AllStart c) : AllStart (effective c t) := by
+  unfold AllStart at *
+  rw [effective_failAt, effective_n]; exact h
+
+/-! #### the spawn list -/
+
+def spawnOf : Act → Option (Nat × Att × Att × Att)
+  | .spawn i a0 a1 a2 => some (i, a0, a1, a2)
+  | _ => none
+
+theorem spawnOf_closes (es : List End) : (es.map Act.close).filterMap spawnOf = [] :=
+  filterMap_closes spawnOf (by simp [spawnOf]) es
+
+theorem spawnOf_stageOk (c : Cfg) (a2 : Att) (i : Nat) :
+    (stageOk c a2 i).filterMap spawnOf = [(i, att0 c i, att1 c i, a2)] := by
+  simp [stageOk, List.filterMap_append, filterMap_mkActs spawnOf (by simp [spawnOf]), spawnOf_closes, spawnOf]
+
+theorem spawnOf_dropVec (c : Cfg) (tk : List End) (w : Nat → Bool) (k : Nat) : (dropVec c tk w k).filterMap spawnOf = [] := by
+  unfold dropVec
+  rw [filterMap_range_flatMap spawnOf _ (fun _ => [])]
+  · simp
+  · intro j
+    unfold dropPopen
+    simp only [List.filterMap_append, spawnOf_closes]
+    split <;> simp [spawnOf]
+
+theorem spawnOf_tail (c : Cfg) (t : Term) : (tail c t).filterMap spawnOf = [] := by
+  cases t <;> simp only [tail, List.filterMap_append, spawnOf_dropVec, spawnOf_closes, List.filterMap_cons,
+    List.filterMap_nil, spawnOf, List.append_nil, List.nil_append]
+
+/-- the commands are started in order, each with the attachments `att0/att1/att2` -/
+theorem spawnOf_runEff (c : Cfg) (t : Term) (h : AllStart c) :
+    (runEff c t).filterMap spawnOf = (List.range c.n).map (fun i => (i, att0 c i, att1 c i, att2 c t)) := by
+  rw [runEff_ok c t h]
+  simp only [List.filterMap_append, spawnOf_tail, filterMap_range_flatMap spawnOf _ _ (spawnOf_stageOk c (att2 c t))]
+  have : ∀ k, (List.range k).flatMap (fun i => [(i, att0 c i, att1 c i, att2 c t)]) =
+      (List.range k).map (fun i => (i, att0 c i, att1 c i, att2 c t)) := by
+    intro k; induction k with
+    | zero => rfl
+    | succ k ih => simp [List.range_succ, List.flatMap_append, ih]
+  rw [this]
+  cases capPipe c t <;> simp only [List.filterMap_cons, List.filterMap_nil, spawnOf, List.append_nil, List.nil_append,
+    if_true, if_false, Bool.false_eq_true]
+
+
+
+
+theorem noSpawn_of_spawnOf (acts : List Act) (h : acts.filterMap spawnOf = []) : NoSpawn acts := by
+  intro a ha i a0 a1 a2 he
+  subst he
+  have : (i, a0, a1, a2) ∈ acts.filterMap spawnOf := by
+    rw [List.mem_filterMap]; exact ⟨_, ha, rfl⟩
+  rw [h] at this; simp at this
+
+theorem stages_clean (c : Cfg) (a2 : Att) (h0 : Held) (k : Nat) (hk : k ≤ c.n)
+    (h0p : ∀ e, 1 ≤ e.pipe → h0 e = none) (h0e : hasErrPipe c = true → ∀ e, h0 e = none)
+    (hclo : ∀ e, h0 e ≠ some false) (ha2 : hasErrPipe c = true → a2 = .pipe 0) :
+    SpawnsClean h0 ((List.range k).flatMap (stageOk c a2)) := by
+  induction k with
+  | zero => simp [SpawnsClean]
+  | succ k ih =>
+    rw [List.range_succ, List.flatMap_append, spawnsClean_append, stages_held c a2 h0 k (by omega) h0p h0e]
+    refine ⟨ih (by omega), ?_⟩
+    simp only [List.flatMap_cons, List.flatMap_nil, List.append_nil]
+    exact stageOk_clean c a2 h0 k (by omega) h0p h0e hclo ha2
+
+theorem att2_errPipe (c : Cfg) (t : Term) (h : hasErrPipe c = true) : att2 c t = .pipe 0 := by
+  simp [hasErrPipe] at h
+  simp [att2, h.1, h.2]
+
+theorem capHeld_pre (cap : Bool) : heldAfter Held.empty (if cap then [Act.mk 0 true true] else []) = capHeld cap := by
+  cases cap
+  · simp [capHeld, Held.empty]; rfl
+  · funext e; obtain ⟨p, s⟩ := e
+    cases s <;> by_cases hp : p = 0 <;> simp [capHeld, Held.empty, heldAfter, stepHeld, hp]
+
+theorem spawnsClean_optAct (h : Held) (p : Prop) [Decidable p] (a : Act)
+    (ha : ∀ i a0 a1 a2, a ≠ .spawn i a0 a1 a2) : SpawnsClean h (if p then [a] else []) := by
+  split
+  · exact spawnsClean_noSpawn h [a] (by intro x hx; simp at hx; subst hx; exact ha)
+  · simp [SpawnsClean]
+
+/-- at every start of a command the parent holds no inheritable pipe end except the ones that
+    command is meant to get (success path) -/
+theorem runEff_ok_clean (c : Cfg) (t : Term) (h : AllStart c) : SpawnsClean Held.empty (runEff c t) := by
+  rw [runEff_ok c t h]
+  have h0p : ∀ e : End, 1 ≤ e.pipe → capHeld (capPipe c t) e = none := by
+    intro e he; simp [capHeld]; omega
+  have h0e : hasErrPipe c = true → ∀ e, capHeld (capPipe c t) e = none := by
+    intro h e; simp [capHeld, capPipe_errPipe c t h]
+  have hclo : ∀ e, capHeld (capPipe c t) e ≠ some false := by
+    intro e; simp only [capHeld]; split <;> simp
+  simp only [spawnsClean_append, heldAfter_append, capHeld_pre]
+  refine ⟨⟨⟨spawnsClean_optAct _ _ _ (by simp), ?_⟩, spawnsClean_optAct _ _ _ (by simp)⟩, ?_⟩
+  · exact stages_clean c (att2 c t) _ c.n (Nat.le_refl _) h0p h0e hclo (att2_errPipe c t)
+  · exact spawnsClean_noSpawn _ _ (noSpawn_of_spawnOf _ (spawnOf_tail c t))
+
+/-- ... and when a later command fails to start -/
+theorem runEff_fail_clean (c : Cfg) (t : Term) (k : Nat) (hf : c.failAt = some k) (hk : k < c.n) :
+    SpawnsClean Held.empty (runEff c t) := by
+  rw [runEff_fail c t k hf hk]
+  have h0p : ∀ e : End, 1 ≤ e.pipe → capHeld (capPipe c t) e = none := by
+    intro e he; simp [capHeld]; omega
+  have h0e : hasErrPipe c = true → ∀ e, capHeld (capPipe c t) e = none := by
+    intro h e; simp [capHeld, capPipe_errPipe c t h]
+  have hclo : ∀ e, capHeld (capPipe c t) e ≠ some false := by
+    intro e; simp only [capHeld]; split <;> simp
+  have nsF : NoSpawn (stageFail c k) := by
+    intro a ha i a0 a1 a2 he
+    have := spawns_stageFail c k
+    subst he
+    have hm : i ∈ (stageFail c k).filterMap spawnIdx := by rw [List.mem_filterMap]; exact ⟨_, ha, rfl⟩
+    rw [this] at hm; simp at hm
+  have nsD : NoSpawn (dropVec c [] noneWaited k) := noSpawn_of_spawnOf _ (spawnOf_dropVec c [] noneWaited k)
+  simp only [spawnsClean_append, heldAfter_append, capHeld_pre]
+  refine ⟨⟨⟨⟨⟨spawnsClean_optAct _ _ _ (by simp), ?_, spawnsClean_noSpawn _ _ nsF⟩, spawnsClean_optAct _ _ _ (by simp)⟩,
+    spawnsClean_noSpawn _ _ nsD⟩, spawnsClean_optAct _ _ _ (by simp)⟩, by simp [SpawnsClean]⟩
+  exact stages_clean c (att2 c t) _ k (by omega) h0p h0e hclo (att2_errPipe c t)
+
+
+
+
+/-- the stages applied in order -/
+def compose (f : Nat → List Nat → List Nat) (k : Nat) (x : List Nat) : List Nat :=
+  (List.range k).foldl (fun acc i => f i acc) x
+
+theorem compose_succ (f : Nat → List Nat → List Nat) (k : Nat) (x : List Nat) :
+    compose f (k + 1) x = f k (compose f k x) := by
+  simp [compose, List.range_succ, List.foldl_append]
+
+def stepFlow (f : Nat → List Nat → List Nat) (input : List Nat) (fl : Flow) (s : Nat × Att × Att × Att) : Flow :=
+  let x := match s.2.1 with | .pipe p => fl.pipeVal p | _ => input
+  let y := f s.1 x
+  match s.2.2.1 with
+  | .pipe p => { fl with pipeVal := fun q => if q = p then y else fl.pipeVal q }
+  | _ => { fl with output := fl.output ++ y }
+
+theorem flow_eq (f : Nat → List Nat → List Nat) (input : List Nat) (fl : Flow) (acts : List Act) :
+    flow f input fl acts = (acts.filterMap spawnOf).foldl (stepFlow f input) fl := by
+  induction acts generalizing fl with
+  | nil => rfl
+  | cons a as ih =>
+    cases a <;> simp only [flow, List.filterMap_cons, spawnOf, List.foldl_cons, ih]
+    rfl
+
+/-- the data that reached the pipeline's configured output -/
+def result (c : Cfg) (fl : Flow) : List Nat :=
+  match c.sout with
+  | .pipe => fl.pipeVal (2 + (c.n - 1))
+  | _ => fl.output
+
+def flow0 (input : List Nat) : Flow := { pipeVal := fun p => if p = 1 then input else [], output := [] }
+
+theorem flow_stages (f : Nat → List Nat → List Nat) (input : List Nat) (c : Cfg) (a2 : Att) (k : Nat) (hk : k ≤ c.n) :
+    let fl := ((List.range k).map (fun i => (i, att0 c i, att1 c i, a2))).foldl (stepFlow f input) (flow0 input)
+    fl.pipeVal 1 = input ∧
+    (0 < k → k < c.n → fl.pipeVal (2 + (k - 1)) = compose f k input ∧ fl.output = []) ∧
+    (0 < k → k = c.n → result c fl = compose f k input) ∧
+    (k = 0 → fl = flow0 input) := by
+  induction k with
+  | zero => simp [flow0]
+  | succ k ih =>
+    obtain ⟨i1, i2, _, i4⟩ := ih (by omega)
+    simp only [List.range_succ, List.map_append, List.foldl_append, List.map_cons, List.map_nil, List.foldl_cons,
+      List.foldl_nil]
+    generalize hfl : List.foldl (stepFlow f input) (flow0 input) (List.map (fun i => (i, att0 c i, att1 c i, a2)) (List.range k)) = fl at *
+    -- the value on the stage's stdin
+    have hx : (match att0 c k with | .pipe p => fl.pipeVal p | _ => input) = compose f k input := by
+      cases k with
+      | zero =>
+        have := i4 rfl
+        subst this
+        simp only [att0, if_true, compose, List.range_zero, List.foldl_nil]
+        cases c.sin <;> simp [flow0]
+      | succ k =>
+        simp only [att0_succ]
+        have := (i2 (by omega) (by omega)).1
+        simpa using this
+    have ho : 0 < k → fl.output = [] := fun h => (i2 h (by omega)).2
+    have ho0 : fl.output = [] := by
+      cases k with
+      | zero => have := i4 rfl; subst this; rfl
+      | succ k => exact ho (by omega)
+    unfold stepFlow
+    simp only [hx, ← compose_succ]
+    by_cases hlast : k + 1 < c.n
+    · have h1 : att1 c k = .pipe (2 + k) := by simp [att1, hlast]
+      simp only [h1]
+      refine ⟨?_, ?_, ?_, by omega⟩
+      · have : ¬ (1 = 2 + k) := by omega
+        simp [this, i1]
+      · intro _ _; simp [ho0]
+      · intro _ h; omega
+    · have hn : k + 1 = c.n := by omega
+      refine ⟨?_, ?_, ?_, by omega⟩
+      · unfold att1; simp only [hlast, if_false]
+        cases c.sout <;> simp [i1]
+        omega
+      · intro _ h; omega
+      · intro _ _
+        unfold att1 result; simp only [hlast, if_false]
+        have : c.n - 1 = k := by omega
+        cases hs : c.sout <;> simp [ho0, this]
+
+
 end Pipe
